@@ -92,6 +92,13 @@ out.append('Each change was written by a fresh sub-agent that was given only the
            'clean tree and non-zero on the patched one, and the full baseline suite has no new failing test id (the 167 ids that fail '
            'in this sandbox for environmental reasons -- meson / cmake / compilers -- fail identically).  To re-run: '
            '`git -C /repo apply /verif/seeded/<id>/patch.diff; /verif/check <Cnn>; git -C /repo checkout -- .`\n')
+out.append('Three rounds were run (`-a/-b`: every claimed property; `-c/-d`: a second and third pair for the properties whose rules were '
+           'youngest or thinnest).  The last column is the honest history: "caught as written" means the check as it stood reported the '
+           'change; "first evaluation: silent / exit 2" means it did not, and names the rule that was added or generalised afterwards -- '
+           'always as a rule about the construct (all sites of the idiom, a truth table, a normal form), never a match on the seeded text; '
+           'each such rule has a breaking and, where an equivalent spelling exists, a neutral self-test variant.  Patches that stopped '
+           'applying after a later `fix:` commit were rebased in a scratch worktree (demo re-run both ways); the original is kept next to '
+           'them as `patch.orig-before-<commit>.diff`.\n')
 out.append('| seed | what it breaks | needs to manifest | result of the check (quick tier) | rule added / strengthened because of it |')
 out.append('|---|---|---|---|---|')
 notes = {}
